@@ -6,6 +6,7 @@ import (
 	"go/constant"
 	"go/token"
 	"go/types"
+	"math/big"
 	"sort"
 	"strings"
 
@@ -112,6 +113,27 @@ func (t *c01Tracer) trace(ctx *c01Ctx, e ast.Expr, resIdx int, delta bool, out *
 			return
 		}
 		seen[key] = true
+		// the receiver of the method being read: the value the method was called on
+		if ro := c01RecvObj(info, fi); ro != nil && ro == o {
+			if ctx.call != nil && ctx.up != nil {
+				if sel, ok := ast.Unparen(ctx.call.Fun).(*ast.SelectorExpr); ok {
+					t.trace(ctx.up, sel.X, 0, delta, out, seen, depth+1)
+				}
+				return
+			}
+			for _, caller := range t.cm.worker {
+				caller := caller
+				ast.Inspect(caller.Decl.Body, func(n ast.Node) bool {
+					if call, ok := n.(*ast.CallExpr); ok && callee(info, call) == fi.Obj {
+						if sel, ok := ast.Unparen(call.Fun).(*ast.SelectorExpr); ok {
+							t.trace(&c01Ctx{fi: caller}, sel.X, 0, delta, out, seen, depth+1)
+						}
+					}
+					return true
+				})
+			}
+			return
+		}
 		// parameter of the function being read?
 		if idx := c01ParamIndex(info, fi, o); idx >= 0 {
 			if len(t.cm.paramIter[o]) > 0 {
@@ -196,6 +218,7 @@ func (t *c01Tracer) trace(ctx *c01Ctx, e ast.Expr, resIdx int, delta bool, out *
 		// st[i]
 		sub := newAtoms()
 		t.trace(ctx, x.X, 0, false, sub, map[string]bool{}, depth+1)
+		c01NormParams(sub)
 		if sub.set["get:S"] {
 			out.set["st"] = true
 		} else {
@@ -451,7 +474,21 @@ func c01R4(r *core.R) {
 		}
 		return false, false
 	}
+	var check0 func(ctx *c01Ctx, via string, dest string, rhs ast.Expr, resIdx int, storeDelta bool, pos token.Pos, what string)
+	// a store inside a helper that several functions call is judged once per call site, in the context of that call
+	// (a tag built by one helper from the dense column here and from the keys / vals columns there)
 	check := func(fi *FuncInfo, dest string, rhs ast.Expr, resIdx int, storeDelta bool, pos token.Pos, what string) {
+		sites := c01CallSitesOf(cm, fi)
+		if len(sites) < 2 {
+			check0(&c01Ctx{fi: fi}, "", dest, rhs, resIdx, storeDelta, pos, what)
+			return
+		}
+		for _, s := range sites {
+			check0(&c01Ctx{fi: fi, call: s.call, up: &c01Ctx{fi: s.caller}}, " via "+s.caller.Name(), dest, rhs, resIdx, storeDelta, pos, what)
+		}
+	}
+	check0 = func(ctx *c01Ctx, via string, dest string, rhs ast.Expr, resIdx int, storeDelta bool, pos token.Pos, what string) {
+		fi := ctx.fi
 		specs, known := table[dest]
 		if !known {
 			return
@@ -459,9 +496,10 @@ func c01R4(r *core.R) {
 		if tv, ok := info.Types[rhs]; ok && tv.Value != nil {
 			return // a constant default (R6 decides those), not a decoded value
 		}
-		c := "store@" + dest
+		c := "store@" + dest + via
 		atoms := newAtoms()
-		t.trace(&c01Ctx{fi: fi}, rhs, resIdx, storeDelta, atoms, map[string]bool{}, 0)
+		t.trace(ctx, rhs, resIdx, storeDelta, atoms, map[string]bool{}, 0)
+		c01NormParams(atoms)
 		var cols []string
 		for _, a := range atoms.list() {
 			if strings.HasPrefix(a, "col:") || strings.HasPrefix(a, "fld:") {
@@ -491,6 +529,28 @@ func c01R4(r *core.R) {
 			matched[dest] = map[int]bool{}
 		}
 		matched[dest][si] = true
+		// unit check: the constant factor of the stored expression, however the conversion is spelled; when the
+		// expression is understood it replaces the requirement that a particular unit constant is mentioned
+		unitConst := ""
+		for _, ex := range specs[si].extras {
+			if strings.HasPrefix(ex, "const:") {
+				unitConst = ex
+			}
+		}
+		if unitConst != "" {
+			want := big.NewRat(1000000, 1) // ns per ms
+			if unitConst == "const:1e-09" {
+				want = big.NewRat(1, 1000000000)
+			}
+			sc := &c01Scale{t: t, info: info, atoms: map[string]string{}, quot: map[string]c01QR{}}
+			if decided, why := sc.verdict(ctx, rhs, resIdx, want); decided {
+				if why != "" {
+					r.Bad(c, pos, "`%s` in %s: unit of %s: %s (evaluated through locals, parameters and helper functions; the format defines %s)", what, fi.Name(), dest, why, c01UnitText(unitConst))
+					return
+				}
+				atoms.set[unitConst] = true
+			}
+		}
 		var missing []string
 		for _, ex := range specs[si].extras {
 			if !atoms.set[ex] {
@@ -729,7 +789,9 @@ func c01KeyValOrder(r *core.R, cm *c01Model) {
 			}
 		}
 		// which read does each Tag field derive from?
-		derives := func(e ast.Expr, o types.Object) bool {
+		var derivesIn func(body ast.Node, e ast.Expr, o types.Object) bool
+		derives := func(e ast.Expr, o types.Object) bool { return derivesIn(fi.Decl.Body, e, o) }
+		derivesIn = func(body ast.Node, e ast.Expr, o types.Object) bool {
 			found := false
 			seen := map[types.Object]bool{}
 			var walk func(e ast.Expr, depth int)
@@ -749,7 +811,7 @@ func c01KeyValOrder(r *core.R, cm *c01Model) {
 					}
 					if ob != nil && !seen[ob] {
 						seen[ob] = true
-						for _, d := range c01Defs(info, fi.Decl.Body, ob) {
+						for _, d := range c01Defs(info, body, ob) {
 							walk(d.rhs, depth+1)
 						}
 					}
@@ -788,6 +850,42 @@ func c01KeyValOrder(r *core.R, cm *c01Model) {
 						}
 					}
 				}
+			case *ast.CallExpr:
+				// a helper that builds the tag from its parameters: Key / Value derive from what is passed for the
+				// parameters the helper's own Tag literal takes them from
+				tf := c01Callee(m.pk, s)
+				if tf == nil {
+					return true
+				}
+				res := tf.Obj.Type().(*types.Signature).Results()
+				if res.Len() == 0 || namedPath(res.At(0).Type()) != core.ModulePath+".Tag" {
+					return true
+				}
+				ast.Inspect(tf.Decl.Body, func(y ast.Node) bool {
+					cl, ok := y.(*ast.CompositeLit)
+					if !ok || namedPath(info.TypeOf(cl)) != core.ModulePath+".Tag" {
+						return true
+					}
+					for _, e := range cl.Elts {
+						kv, ok := e.(*ast.KeyValueExpr)
+						if !ok {
+							continue
+						}
+						for i, a := range s.Args {
+							po := c01Param(info, tf, i)
+							if po == nil || !derivesIn(tf.Decl.Body, kv.Value, po) {
+								continue
+							}
+							switch kv.Key.(*ast.Ident).Name {
+							case "Key":
+								key = a
+							case "Value":
+								val = a
+							}
+						}
+					}
+					return true
+				})
 			default:
 				return true
 			}
@@ -820,4 +918,11 @@ func c01KeyValOrder(r *core.R, cm *c01Model) {
 			r.OK(c, k.call.Pos(), "in %s: first read → key (0 ends the node's tags and leaves the pair loop), second read → value", fi.Name())
 		}
 	}
+}
+
+func c01UnitText(unitConst string) string {
+	if unitConst == "const:1e-09" {
+		return "degrees = 1e-9 * (offset + granularity * stored value)"
+	}
+	return "milliseconds since the epoch = stored value * date_granularity, so seconds = ms / 1000 and nanoseconds = (ms % 1000) * 1e6"
 }
